@@ -29,7 +29,7 @@ Where the code deviates from the property (findings, each with a counterexample 
   (`empty_array_query_unanswered_counterexample`, key `pipeline/query-unanswered`);
 * the prediction cache is the one piece of shared mutable state: transparent iff no two inputs with different
   predictions share a rounded key (`cache_transparent`, `cache_collision_counterexample`; the collision on the
-  real record is C08's finding `predict/cache-key-collision`).
+  real record is C08's finding `predict/cache-rounding-collision`).
 
 Not a finding (configuration, outside the quantifier `parallelism 1..#cores`): parallelism 0 makes
 `apply_load_balancing_policy` fail the whole batch (`parallelism_zero_fails_batch`).
@@ -401,7 +401,7 @@ theorem rounded_cache_transparent (round f : Nat → Nat) (hinj : ∀ x y, round
 /-- **… and it is not when two inputs with different predictions share a rounded key**: two workers, one
 query each, keys rounded to tens; the two schedules give different responses (30, 30 versus 34, 34) —
 the result depends on which query ran first.  (On the real `PredictionModelRecord` this is C08's finding
-`predict/cache-key-collision`.) -/
+`predict/cache-rounding-collision`.) -/
 theorem cache_collision_counterexample :
     let bins : List (List Json) := [[.num "30" 30], [.num "34" 34]]
     let run := fun sched => (collected (execS (cacheRespond (· / 10) id) sched ([], initWorkers bins)).2).map
